@@ -87,6 +87,7 @@ def verify_function(reg, qualname, opts=None) -> FunctionReport:
     try:
         st, params = initial_state(eng, fi, c)
         eng.entry_alloc = st.heap.alloc
+        eng.entry_heap = st.heap
         pre = State(st.env.copy(), st.heap, st.pc, None, {})
         st.old = pre
         if c.opts.get("ghost_stdout"):
